@@ -2,6 +2,7 @@ from . import stage1
 from . import stage2
 from . import stage3
 import numpy as np
+from einx._src.frontend.errors import AxisSizeError
 
 
 def _idx_to_ordinal(idx, n):
@@ -54,6 +55,15 @@ def solve(
     # Remove unused constraints
     used_axisnames = {expr.name for expr in list(exprs_in) + list(exprs_out) for expr in expr.nodes() if isinstance(expr, stage1.Axis)}
     parameters = {k: v for k, v in parameters.items() if k in used_axisnames}
+
+    # Negative sizes cannot be written in the notation (they would be parsed as text) and never have a solution
+    for k, v in parameters.items():
+        if np.any(np.asarray(v) < 0):
+            raise AxisSizeError(
+                invocation,
+                message=f"The constraint for axis {k} must be positive, but found value {_arr_to_str(np.asarray(v))}.\n%EXPR%",
+                pos=invocation.indicator.get_pos_for_axisnames(list(exprs_in) + list(exprs_out), [k]),
+            )
 
     if verbose:
         print("Stage1:")
